@@ -561,6 +561,43 @@ def check_eq(ctx):
                 '(str(check)), e.g. by comparing check_str')))
 
 
+def check_pure_printers(ctx, classes):
+    """What a check prints depends on the check alone: no printer - nor a
+    decorator wrapped around it - keeps module-level state (a memo, a set of
+    'prints in progress'), which other prints, other threads included, would
+    see."""
+    from ..modstate import state_uses
+    from ..model import FunctionInfo
+    prog = ctx.prog
+    region = {}
+    for q in sorted(classes):
+        f = prog.find_method(q, '__str__')
+        if f is None:
+            continue
+        region[f.qual] = f
+        for q2, g in prog.region(f).items():
+            if g.module.name == CHECKS:
+                region.setdefault(q2, g)
+        w = prog.wrapper_of(f)
+        if w is not None:
+            g = FunctionInfo(f.module, w[0])
+            g.qual = '%s.<decorator>.%s' % (f.qual, w[0].name)
+            region[g.qual] = g
+    uses = state_uses(prog, region)
+    for f, node, name, how in uses:
+        ctx.ob('C15.PURE', False, ctx.where(f.module, node), f.qual,
+               '%s module-level `%s`' % (how, name),
+               'printing a check %s the module-level object `%s`: the text '
+               'of a rule then depends on what else is being printed (by '
+               'this or another thread), and identical rules can print '
+               'differently' % (how, name))
+    if not uses:
+        ctx.ob('C15.PURE', True, ctx.where(prog.module(CHECKS),
+                                           prog.module(CHECKS).tree), CHECKS,
+               'module-level state in %d printer functions' % len(region),
+               'none', nontrivial=False)
+
+
 def check(ctx):
     ctx.use(CHECKS, PARSER, POLICY)
     ctx.explain('C15: printer formats are extracted from every __str__ and '
@@ -613,3 +650,4 @@ def check(ctx):
               'combinators built by the list translator')
     check_dump(ctx)
     check_eq(ctx)
+    check_pure_printers(ctx, classes0)
